@@ -24,9 +24,9 @@ def main(argv=None):
         def _expire():
             sys.stdout.write(f'CHECKER-FAULT check {prop} did not finish within {limit} s (watchdog); no verdict\n'); sys.stdout.flush()
             try:
-                import multiprocessing as mp
-                for ch in mp.active_children():
-                    try: ch.kill()
+                from pyvc import par
+                for pid in list(par.CHILDREN):
+                    try: os.kill(pid, 9)
                     except Exception: pass
             finally: os._exit(3)
         wd = threading.Timer(limit, _expire); wd.daemon = True; wd.start()
